@@ -6,9 +6,12 @@ import gen_xml
 AXES_FWD = ['child', 'descendant', 'descendant-or-self', 'following', 'following-sibling', 'attribute', 'self']
 AXES_REV = ['parent', 'ancestor', 'ancestor-or-self', 'preceding', 'preceding-sibling']
 NUM_LITS = ['0', '1', '2', '3', '10', '0.5', '1.5', '2.5', '-1', '100', '.5', '5.', '007', '1000000', '9007199254740993',
-            '0.1', '0.000001', '12345678901234567890', '4', '7']
+            '0.1', '0.000001', '12345678901234567890', '4', '7',
+            # integers around the limits of the integer types a conversion shortcut may go through
+            '9223372036854775807', '9223372036854775808', '9999999999999999999', '18446744073709551615', '4294967296', '2147483648']
 STR_LITS = ["''", "'a'", "'b'", "'ab'", "'abc'", "' 12 '", "'1'", "'2'", "'10'", "'x y'", "'NaN'", "'-1'", '"q\'s"', "'0'", "'true'",
-            "'3.5'", "'alpha'", "'i1'", "'i2 i3'", "'1e3'", "'A'", "'  a  b '", "'-0'", "'é'"]
+            "'3.5'", "'alpha'", "'i1'", "'i2 i3'", "'1e3'", "'A'", "'  a  b '", "'-0'", "'é'",
+            "'9999999999999999999'", "'9223372036854775808'", "' 999999999999999999'", "'-9223372036854775809'", "'18446744073709551616'"]
 
 
 class Gen(object):
